@@ -33,6 +33,7 @@ def _compute(tier, seed):
     from . import replay_loglik
     recs = list(records.values())
     results = pmap(replay_loglik.replay_case, [(rec, seed) for rec in recs])
+    results = list(results) + [replay_loglik.long_series_checks(seed)]
     return dict(runs=runs, records_sample=recs[:2] + recs[-2:], n=len(recs), results=[(f, c) for f, c in results])
 
 
